@@ -30,7 +30,7 @@ def gen_cases(ctx):
     ctx.add_tlc(r, "IdSetDense simulated histories (depth 12)")
     for i, c in enumerate(r.cases):
         variants = ["u32low", "u64low", "u32mid"]
-        if i % (8 if quick else 2) == 0:
+        if i % (8 if quick else 16) == 0:      # 4 MiB chunks: every walk over one costs ~10 ms (thorough: 2000 of 32000 histories)
             variants += ["u32top", "u64big"]
         for v in variants:
             cases.append(dict(c, id="dense-%d-%s" % (i, v), kind="dense", variant=v))
